@@ -11,6 +11,7 @@ import Nq.Lemmas.Pop3Blast
 import Nq.Lemmas.Pop3Sess
 import Nq.Lemmas.Pop3Heap
 import Nq.Lemmas.Pop3Stat
+import Nq.Lemmas.Pop3Sim
 
 namespace Nq.Props.C19
 open Nq Nq.Pop3 Nq.Pop3Ref Nq.Lemmas.Pop3 Nq.Lemmas.Pop3Heap
@@ -62,6 +63,32 @@ theorem C19_limit_count (arg : Bytes)
     (hk : (scanUlong ((arg.drop (scanUlong arg).2).dropWhile (· = SP))).1 + 1 < U64) :
     topLimit arg = (scanUlong ((arg.drop (scanUlong arg).2).dropWhile (· = SP))).1 + 1 := by
   simp [topLimit, h, Nat.mod_eq_of_lt hk]
+
+/-- **a count of 2^64 - 1 or more saturates**: `count + 1` would wrap, the limit handed to blast()
+is 0 = "no limit", and the whole message is sent — which is what such a count asks for
+(`C19_top_decoded`). (`topCount arg` = the unbounded decimal value of the second number.) -/
+theorem C19_limit_saturated (arg : Bytes) (k : Nat) (h : topCount arg = some k) (hk : U64 - 1 ≤ k) :
+    topLimit arg = 0 := by
+  rw [topLimit_spec, h]
+  simp only
+  rw [if_neg (by omega)]
+
+/-- the limit for every argument: no second number ⇒ 0; second number `k < 2^64 - 1` ⇒ `k + 1`;
+larger ⇒ 0 -/
+theorem C19_limit_spec (arg : Bytes) :
+    topLimit arg = match topCount arg with
+      | none => 0
+      | some k => if k < U64 - 1 then k + 1 else 0 := topLimit_spec arg
+
+/-- **RETR / TOP for every argument**: a client decodes the payload of an accepted `TOP n k` —
+`k` of any size, below or above 2^64 — to the header, the blank line and the first `k` body lines of the
+file, and that of `RETR n` / `TOP n` to all its lines; then the documented blank line; and stops
+exactly at the end. (The file has fewer than 2^64 - 1 bytes.) -/
+theorem C19_top_decoded (arg data rest : Bytes) (h : data.length < U64 - 1) :
+    popDecode (blast (topLimit arg) data ++ rest) =
+      some ((match topCount arg with
+             | none => lines data
+             | some k => topLines k (lines data)) ++ [[]], rest) := top_decoded arg data rest h
 
 /-- The file that has vanished is refused, nothing is sent for it. -/
 theorem C19_retr_vanished (s : Sess) (verb arg : Bytes) (i : Nat) (mm : Msg)
@@ -126,15 +153,29 @@ theorem C19_no_quit_no_delete (evs : List Ev) : ∀ r : Run,
       | none => rfl
 
 /-- **QUIT keeps every unmarked message.** A file that is not a marked message (and is not in
-new/, where it gets its new name, and does not carry the name a new/ message is about to get) is
-found after QUIT exactly as before. -/
+new/, where it gets its new name — `C19_quit_renames` — and does not carry the name an unmarked
+new/ message is about to get) is found after QUIT exactly as before.
+(Audit repair: `h2` used to exclude the new name of *every* message, also of those that are not
+renamed; it now excludes only the names that pop3_quit really renames onto.) -/
 theorem C19_quit_keeps (s : Sess) (verb arg p : Bytes) (f : File) (hq : verbIs vQuit verb = true)
     (hf : fsFind s.fs p = some f)
     (h1 : ∀ m ∈ s.msgs, m.fn = p → m.del = false ∧ (m.fn.take 4 == newSl) = false)
-    (h2 : ∀ m ∈ s.msgs, seenName m.fn ≠ p) :
+    (h2 : ∀ m ∈ s.msgs, m.del = false → (m.fn.take 4 == newSl) = true → seenName m.fn ≠ p) :
     fsFind (exec s verb arg).1.fs p = some f := by
   simp only [exec, hq, if_true]
   exact quit_keeps s.msgs s.fs [] p f hf h1 h2
+
+/-- **QUIT keeps every unmarked message of new/ too — under its new name.** An unmarked message
+`new/x` whose file `f` is there is found after QUIT as `cur/x:2,` with the same data and times, and
+`new/x` is gone. (Message names unique; `cur/x:2,` is not itself a message marked for deletion —
+with that, and `C19_quit_keeps`, `C19_quit_removes`: only messages marked by DELE are removed.) -/
+theorem C19_quit_renames (s : Sess) (verb arg : Bytes) (m : Msg) (f : File) (hq : verbIs vQuit verb = true)
+    (hm : m ∈ s.msgs) (hd : m.del = false) (hn : m.fn.take 4 = newSl) (hf : fsFind s.fs m.fn = some f)
+    (hu : (s.msgs.map (·.fn)).Nodup) (h2 : ∀ x ∈ s.msgs, x.fn = seenName m.fn → x.del = false) :
+    fsFind (exec s verb arg).1.fs (seenName m.fn) = some { f with path := seenName m.fn } ∧
+    fsFind (exec s verb arg).1.fs m.fn = none := by
+  simp only [exec, hq, if_true]
+  exact quit_renames s.msgs s.fs [] m f hm hd hn hf hu h2
 
 /-- **QUIT removes every marked message** (maildir names being unique: no new/ message is renamed
 onto it). -/
@@ -241,6 +282,75 @@ theorem C19_refuse_huge (s : Sess) (arg : Bytes) (h : decVal (arg.takeWhile isDi
   have h1 : u ≠ 0 := by rw [hu]; unfold U64; omega
   exact ⟨errLine "not that many messages", by simp only [h0, h1, h2, if_true, if_false], errLine_take _⟩
 
+/-- **msgno() is the reference reading of a message number**: with `n` the (unbounded) decimal
+value of the leading digit run of the argument, it refuses when there is no digit, `n = 0`,
+`n` exceeds the number of messages (or INT_MAX), or message `n` is marked; otherwise it accepts and
+denotes message `n` (index `n - 1`). No modulus appears. -/
+theorem C19_msgno_spec (s : Sess) (arg : Bytes) : msgno s arg = msgnoSpec s arg := msgno_eq_spec s arg
+
+/-- **An accepted number denotes that message**: `i + 1` is the decimal value written, message
+`i + 1` exists and is unmarked — and conversely (the four refusal conditions of `C19_refuse_when`
+are the only ones, plus the `int` range). -/
+theorem C19_msgno_accepts (s : Sess) (arg : Bytes) (i : Nat) :
+    msgno s arg = .ok i ↔
+      (arg.takeWhile isDigit ≠ [] ∧ decVal (arg.takeWhile isDigit) = i + 1 ∧ i < s.msgs.length ∧ i < INT_MAX ∧
+        ∃ m, s.msgs[i]? = some m ∧ m.del = false) := by
+  rw [msgno_eq_spec]
+  unfold msgnoSpec
+  simp only
+  generalize arg.takeWhile isDigit = ds
+  constructor
+  · intro h
+    by_cases h0 : ds = []
+    · simp [h0] at h
+    rw [if_neg h0] at h
+    by_cases h1 : decVal ds = 0
+    · simp [h1] at h
+    rw [if_neg h1] at h
+    by_cases h2 : decVal ds > s.msgs.length ∨ decVal ds > INT_MAX
+    · simp [h2] at h
+    rw [if_neg h2] at h
+    cases hm : s.msgs[decVal ds - 1]? with
+    | none => rw [hm] at h; simp at h
+    | some m =>
+      rw [hm] at h
+      by_cases hd : m.del = true
+      · simp [hd] at h
+      · simp only [hd] at h
+        have e : decVal ds - 1 = i := by simpa using h
+        subst e
+        exact ⟨h0, by omega, by omega, by omega, m, hm, by simpa using hd⟩
+  · rintro ⟨h0, hv, hl, hi, m, hm, hd⟩
+    have h1 : ¬ decVal ds = 0 := by omega
+    have h2 : ¬ (decVal ds > s.msgs.length ∨ decVal ds > INT_MAX) := by omega
+    have e : decVal ds - 1 = i := by omega
+    rw [if_neg h0, if_neg h1, if_neg h2, e, hm]
+    simp [hd]
+
+/-- every refusal of msgno() is a "-ERR " line -/
+theorem C19_msgno_err (s : Sess) (arg r : Bytes) (h : msgno s arg = .err r) : r.take 5 = errSp := by
+  rw [msgno_eq_spec] at h
+  unfold msgnoSpec at h
+  simp only at h
+  repeat' split at h
+  all_goals first
+    | (cases h; exact errLine_take _)
+    | cases h
+
+/-- **DELE n marks message n** (and nothing else): `n` written in decimal with any number of leading
+zeros, followed by anything that is not a digit. -/
+theorem C19_dele_number (s : Sess) (verb arg : Bytes) (n : Nat) (m : Msg) (hv : verbIs vDele verb = true)
+    (h0 : arg.takeWhile isDigit ≠ []) (hn : decVal (arg.takeWhile isDigit) = n + 1)
+    (hi : n < INT_MAX) (hm : s.msgs[n]? = some m) (hd : m.del = false) :
+    exec s verb arg = ({ s with msgs := setDel s.msgs n, last := if n + 1 > s.last then n + 1 else s.last }, okLine, none) := by
+  have hl : n < s.msgs.length := by
+    rcases Nat.lt_or_ge n s.msgs.length with h | h
+    · exact h
+    · rw [List.getElem?_eq_none h] at hm; cases hm
+  have := (C19_msgno_accepts s arg n).mpr ⟨h0, hn, hl, hi, m, hm, hd⟩
+  have h : lower verb = vDele := by simpa [verbIs] using hv
+  simp [exec, verbIs, h, this, vQuit, vStat, vList, vUidl, vDele]
+
 /-! ### sizes and unique ids -/
 
 /-- **LIST n** announces the size the file had at start-up, **UIDL n** the file name below new/
@@ -320,23 +430,65 @@ theorem C19_preauth_apop (s : Popup.PSt) (verb name digest : Bytes)
   rw [ht, hd]
   simp [vUser, vPass, vApop]
 
-/-- **Descriptor 3 receives exactly** user NUL password NUL "<" unique hostname ">" NUL, where
-"<unique hostname>" is the timestamp of the greeting — or nothing at all if no USER/PASS or APOP
-was completed. -/
+/-- **Framing of descriptor 3**: whenever the checker is started, descriptor 3 carries
+`user NUL pass NUL "<" unique host ">" NUL` for the credentials `a` that the command loop stopped
+with (`act = .auth a`), and `<unique host>` is the timestamp of the greeting. Which credentials those
+are is said by `C19_preauth_main_userpass` / `C19_preauth_main_apop` (from the input bytes) and by
+`C19_preauth_userpass` / `C19_preauth_apop` (per command).
+(Audit repair: the earlier statement left `a` unconstrained; it is now tied to the state of the run.) -/
 theorem C19_preauth_fd3 (pid now : Nat) (host : Bytes) (child : Popup.Child) (input b : Bytes)
     (h : (Popup.pmain pid now host child input).fd3 = some b) :
-    ∃ a : Popup.Auth, b = a.user ++ [NUL] ++ a.pass ++ [NUL] ++ [60] ++ Popup.unique pid now ++ host ++ [62, NUL] ∧
+    ∃ a : Popup.Auth, (input.foldl Popup.pfeedByte { out := Popup.greeting pid now host }).act = .auth a ∧
+      b = a.user ++ [NUL] ++ a.pass ++ [NUL] ++ [60] ++ Popup.unique pid now ++ host ++ [62, NUL] ∧
       Popup.greeting pid now host = okSp ++ [60] ++ Popup.unique pid now ++ host ++ [62, CR, LF] := by
   unfold Popup.pmain Popup.pfinish at h
-  generalize List.foldl Popup.pfeedByte _ input = r at h
+  generalize List.foldl Popup.pfeedByte _ input = r at h ⊢
   cases hact : r.act with
   | cont => simp [hact] at h
   | exit c => simp [hact] at h
   | auth a =>
     simp only [hact] at h
-    refine ⟨a, ?_, rfl⟩
+    refine ⟨a, rfl, ?_, rfl⟩
     have : Popup.fd3 pid now host a = b := by simpa using h
     rw [← this]; simp [Popup.fd3]
+
+/-- … and conversely nothing is written to descriptor 3 unless the loop stopped in doanddie() -/
+theorem C19_preauth_fd3_none (pid now : Nat) (host : Bytes) (child : Popup.Child) (input : Bytes)
+    (h : ∀ a, (input.foldl Popup.pfeedByte { out := Popup.greeting pid now host }).act ≠ .auth a) :
+    (Popup.pmain pid now host child input).fd3 = none := by
+  unfold Popup.pmain Popup.pfinish
+  generalize List.foldl Popup.pfeedByte _ input = r at h ⊢
+  cases hact : r.act with
+  | cont => rfl
+  | exit c => rfl
+  | auth a => exact absurd hact (h a)
+
+/-- **main() of qmail-popup, from the input bytes to descriptor 3 (USER / PASS).** The client sends
+`USER u CR LF PASS p CR LF` (verbs in any case, one or more spaces, `u` and `p` any non-empty byte
+strings without NUL and LF that do not begin with a space — they may contain spaces and end in CR)
+followed by anything at all: the checker receives exactly `u NUL p NUL <unique host> NUL`, the client
+sees the greeting, "+OK" for USER and then only what the checker's exit status calls for, and the exit
+code is 1. -/
+theorem C19_preauth_main_userpass (pid now : Nat) (host : Bytes) (child : Popup.Child) (v1 v2 u p tail : Bytes)
+    (k1 k2 : Nat) (h1 : verbIs vUser v1 = true) (h2 : verbIs vPass v2 = true) (hk1 : k1 ≠ 0) (hk2 : k2 ≠ 0)
+    (hu : ∀ c ∈ u, c ≠ NUL ∧ c ≠ LF) (hu0 : u ≠ []) (hus : u.head? ≠ some SP)
+    (hp : ∀ c ∈ p, c ≠ NUL ∧ c ≠ LF) (hp0 : p ≠ []) (hps : p.head? ≠ some SP) :
+    Popup.pmain pid now host child
+        (v1 ++ (List.replicate k1 SP ++ u) ++ [CR] ++ [LF] ++ (v2 ++ (List.replicate k2 SP ++ p) ++ [CR] ++ [LF] ++ tail)) =
+      { out := Popup.greeting pid now host ++ okLine ++ childMsg child,
+        fd3 := some (u ++ [NUL] ++ p ++ [NUL] ++ [60] ++ Popup.unique pid now ++ host ++ [62, NUL]), code := 1 } :=
+  pmain_userpass pid now host child v1 v2 u p tail k1 k2 h1 h2 hk1 hk2 hu hu0 hus hp hp0 hps
+
+/-- **… and for APOP**: `APOP name digest CR LF` (name non-empty, without space, NUL, LF; digest without
+NUL, LF) followed by anything: the checker receives `name NUL digest NUL <unique host> NUL`. -/
+theorem C19_preauth_main_apop (pid now : Nat) (host : Bytes) (child : Popup.Child) (v name digest tail : Bytes) (k : Nat)
+    (h : verbIs vApop v = true) (hk : k ≠ 0)
+    (hn : ∀ c ∈ name, c ≠ NUL ∧ c ≠ LF ∧ c ≠ SP) (hn0 : name ≠ [])
+    (hd : ∀ c ∈ digest, c ≠ NUL ∧ c ≠ LF) :
+    Popup.pmain pid now host child (v ++ (List.replicate k SP ++ (name ++ SP :: digest)) ++ [CR] ++ [LF] ++ tail) =
+      { out := Popup.greeting pid now host ++ childMsg child,
+        fd3 := some (name ++ [NUL] ++ digest ++ [NUL] ++ [60] ++ Popup.unique pid now ++ host ++ [62, NUL]), code := 1 } :=
+  pmain_apop pid now host child v name digest tail k h hk hn hn0 hd
 
 /-! ### the command tables (regenerated from the sources on every run) -/
 
@@ -564,5 +716,14 @@ example : parseLine [81, 85, 73, 84] = ([81, 85, 73, 84], []) := by decide
 example : parseLine [97, 0, 98] = ([97], []) := by decide
 /-- two lines, the second never runs because the first is QUIT -/
 example : ((stepLine (stepLine { s := ⟨[], 0, []⟩ } [113, 117, 105, 116]) [110, 111, 111, 112]).exit = some 0) := by decide
+
+/-- "USER" / "pass" are the verbs; an unmarked new/ message: "new/a" → "cur/a:2," -/
+example : verbIs vUser [85, 83, 69, 82] = true ∧ verbIs vPass [112, 97, 115, 115] = true := by decide
+example : seenName [110, 101, 119, 47, 97] = [99, 117, 114, 47, 97, 58, 50, 44] := by decide
+example : (exec ⟨[⟨[110, 101, 119, 47, 97], 1, false⟩, ⟨[99, 117, 114, 47, 98], 1, true⟩], 2,
+      [⟨[110, 101, 119, 47, 97], [120], 1, 1⟩, ⟨[99, 117, 114, 47, 98], [121], 1, 1⟩]⟩ vQuit []).1.fs
+    = [⟨[99, 117, 114, 47, 97, 58, 50, 44], [120], 1, 1⟩] := by decide
+/-- "TOP 1 18446744073709551615": the count saturates, the limit is 0 -/
+example : topCount [49, 32, 49, 56, 52, 52, 54, 55, 52, 52, 48, 55, 51, 55, 48, 57, 53, 53, 49, 54, 49, 53] = some (U64 - 1) := by decide
 
 end Nq.Props.C19
